@@ -75,7 +75,15 @@ def check(ctx: Ctx) -> str:
     ctx.rule("R4", "adjacent string literals are concatenated; number and string tokens become Const nodes carrying the converted value; constants are re-emitted with repr()")
     pp = repo.func("parser:Parser.parse_primary")
     s = ast.unparse(pp.node)
-    ctx.check("while self.stream.current.type == 'string':" in s and "buf.append(self.stream.current.value)" in s and "nodes.Const(''.join(buf), lineno=" in s, "adjacent-strings", "parser:Parser.parse_primary", "string concatenation", "adjacent string tokens must be joined into one Const", pp.loc())
+    wl_ = [w for w in ast.walk(pp.node) if isinstance(w, ast.While) and ast.unparse(w.test) in ("self.stream.current.type == 'string'", "'string' == self.stream.current.type")]
+    ok_adj = len(wl_) == 1
+    if ok_adj:
+        app_ = [c for c in astq.calls(wl_[0]) if isinstance(c.func, ast.Attribute) and c.func.attr == "append" and isinstance(c.func.value, ast.Name) and [ast.unparse(a) for a in c.args] == ["self.stream.current.value"]]
+        ok_adj = len(app_) == 1 and any(astq.callee(c) == "next" for c in astq.calls(wl_[0]))
+        if ok_adj:
+            ln_ = app_[0].func.value.id  # type: ignore[attr-defined]
+            ok_adj = f"{ln_} = [token.value]" in s and f"nodes.Const(''.join({ln_}), lineno=" in s
+    ctx.check(ok_adj, "adjacent-strings", "parser:Parser.parse_primary", "string concatenation", "adjacent string tokens must be joined into one Const", pp.loc())
     ctx.check("token.type in ('integer', 'float')" in s and "nodes.Const(token.value, lineno=token.lineno)" in s, "number-const", "parser:Parser.parse_primary", "number constants", "integer / float tokens must become Const(token.value)", pp.loc())
     vc = repo.func("compiler:CodeGenerator.visit_Const")
     s = ast.unparse(vc.node)
